@@ -297,8 +297,11 @@ def check_c05(src, run, res):
     #      callable the listener uses: async def, plain def, plain def returning a coroutine)
     for name, m in run.members.items():
         assigns = [e[0] for e in m.events if e[1] == "assign_start"]
+        owned = [e[2] for e in m.events if e[1] == "assign_start"]
         ends = [e[0] for e in m.events if e[1] == "revoke_end"]
-        for a0, a1 in zip(assigns, assigns[1:]):
+        for k, (a0, a1) in enumerate(zip(assigns, assigns[1:])):
+            if not owned[k]:
+                continue  # nothing was owned, nothing to give up
             ok = any(a0 < t <= a1 + 1e-9 for t in ends)
             src.check(ok, f"member {name}: on_partitions_assigned was called again (at {a1:.3f}) without its on_partitions_revoked "
                       "having run to completion since the previous assignment", plan=_plan(run))
